@@ -95,20 +95,15 @@ def NL(kind, enc):
 
 
 def split_keep(data, nl):
-    out = []
-    i = 0
+    # leftmost non-overlapping occurrences of nl, each line keeping its nl
+    parts = data.split(nl)
+    last = parts.pop()
+    out = [p + nl for p in parts]
 
-    while True:
-        j = data.find(nl, i)
+    if last:
+        out.append(last)
 
-        if j < 0:
-            if i < len(data):
-                out.append(data[i:])
-
-            return out
-
-        out.append(data[i:j + len(nl)])
-        i = j + len(nl)
+    return out
 
 
 def detect_text(text):
@@ -529,12 +524,9 @@ def ref_parse(data, spans=None, partial=None):
                 lines2 = []
 
                 for l in lines:
-                    k = 0
-
-                    while k < ind and l[k:k + 1] == b' ':
-                        k += 1
-
-                    lines2.append(l[k:])
+                    # up to `ind` leading spaces go
+                    head = l[:ind]
+                    lines2.append(l[len(head) - len(head.lstrip(b' ')):])
 
                 content = b''.join(lines2)
 
